@@ -8,6 +8,7 @@
 package c11
 
 import (
+	"reflect"
 	"bytes"
 	"errors"
 	"fmt"
@@ -96,7 +97,12 @@ var unsupported = []struct {
 	{"error value", errors.New("x")},
 	{"int", 7},
 	{"nil *notMsg", (*notMsg)(nil)},
+	// the struct behind one of the run's message types, passed by value: the methods are on the pointer, so this
+	// is not a message - and what is learnt about it must not be applied to the pointer type, or vice versa
+	{bareStruct, nil},
 }
+
+const bareStruct = "bare struct value of a message type"
 
 const (
 	oMsgType = iota
@@ -226,6 +232,12 @@ func exec(o op, vals []value) (res obsv) {
 	}()
 	if o.code == oUnsupported {
 		u := unsupported[o.uns].v
+		if unsupported[o.uns].name == bareStruct {
+			// (of a private copy: the shared value may be in use by another client)
+			if rv := reflect.ValueOf(corpus.FreshCopy(vals[o.val].m)); rv.Kind() == reflect.Pointer && !rv.IsNil() && rv.Elem().Kind() == reflect.Struct {
+				u = rv.Elem().Interface()
+			}
+		}
 		mt := csproto.MsgType(u)
 		_, merr := csproto.Marshal(u)
 		uerr := csproto.Unmarshal([]byte{8, 1}, u)
